@@ -6,15 +6,21 @@ import pipeline
 import talgen
 
 PID = 'C11'
-PROOF_MODULES = ['ChamProofs.Props.C11', 'ChamProofs.Props.C03']
+PROOF_MODULES = ['ChamProofs.Props.C11', 'ChamProofs.Props.C03', 'ChamProofs.Props.C11Clause', 'ChamProofs.Ties']
 THEOREMS = ['ChamVerif.anchored_slice', 'ChamVerif.anchored_lstripBy', 'ChamVerif.anchored_rstripBy', 'ChamVerif.anchored_stripBy',
             'ChamVerif.anchored_split_parts', 'ChamVerif.C11_split_anchored', 'ChamVerif.C11_split_counterexample_before_fix',
-            'ChamVerif.C11_quirk_fixed', 'ChamVerif.C11_location_line', 'ChamVerif.C03_tokens_anchored']
+            'ChamVerif.C11_quirk_fixed', 'ChamVerif.C11_location_line', 'ChamVerif.C03_tokens_anchored',
+            'ChamVerif.splitParts_anchored', 'ChamVerif.C11_defines_error_anchored', 'ChamVerif.C11_attributes_error_anchored',
+            'ChamVerif.C11_substitution_error_anchored',
+            'ChamVerif.tie_whitelists']
 LEVEL_TEXT = ('Proved in Lean for every source, token and argument: the position algebra of Token keeps tokens anchored — a slice, a left/right/'
               'both-sided strip and every part of split(sep) of an anchored token is again the source slice at its position '
               '(anchored_slice, anchored_*stripBy, C11_split_anchored; the last for the separator-counting split /repo has after the D-11a '
               'fix, with the pre-fix behaviour refuted by a concrete witness), starting from the tokenizer\'s tokens which are anchored for '
-              'every input (C03_tokens_anchored); line = 1 + newlines before the position (C11_location_line). The raise sites of the parser, '
+              'every input (C03_tokens_anchored); line = 1 + newlines before the position (C11_location_line). For the clause parsers themselves: every error of parse_defines, '
+              'parse_attributes and parse_substitution on a clause that is a source slice and needs none of the text surgery of split_parts '
+              '(no ";;", no entity, no NUL: the decidable side condition clauseSimple) carries a token that is again a source slice '
+              '(C11_defines_error_anchored, C11_attributes_error_anchored, C11_substitution_error_anchored, via splitParts_anchored). The other raise sites of the parser, '
               'the TAL clause parsers, the program builder and the compiler checks are modelled (class, message, token, offset, line, column) '
               'and tied to the code by correspondence on planted faults; the oracle judges source[offset:offset+len(token)] == token, the '
               'exception class and non-rejection of the fault-free base on the implementation alone.')
